@@ -59,9 +59,10 @@ class C08(Check):
         from hypothesis import given, settings, seed, HealthCheck, Phase, strategies as st
         res = Result()
         _, s, n = task
-        gram = st.integers(0, 5).flatmap(lambda m: (
+        gram = st.integers(0, 6).flatmap(lambda m: (
             gens.core_grammar(nrules=5, depth=4, mode='bytes') if m == 0 else
             gens.core_grammar(nrules=5, depth=4) if m in (1, 2) else
+            gens_rich.rich_grammar(nrules=3, depth=3, mode='bytes') if m == 6 else
             gens_rich.rich_grammar(nrules=3, depth=3)))
 
         @seed(s)
